@@ -41,6 +41,53 @@ func ruleVerifyWindow(c *RC) *RuleResult {
 			scan(g, 0)
 		}
 	}
+	// ... on EVERY completing path, whatever the node's role: a watch-only validator does not answer the proposal, but it
+	// processes the pre-block and the block like everybody else and counts what is parked in its tables
+	if rec != nil {
+		root := c.phaseRoot(rec)
+		at := fAllTx().Atom
+		for fn, table := range vr {
+			if !completes[table] {
+				continue
+			}
+			r.Sites++
+			bad := ""
+			for _, e := range c.exitsOf(root) {
+				if v, known := e.F.value(at); !known || !v {
+					continue
+				}
+				if e.Killed["ctx.Transactions"] == 0 || e.Events["fn:"+fn.Name] {
+					continue
+				}
+				if v, ok := e.F.value(mkAtom("eq", tMyIndex, tPrimaryIndex)); ok && v {
+					continue // the primary has its transactions from the start: nothing was parked for their sake
+				}
+				skip := false
+				for _, ini := range c.initialisers() {
+					if e.Events["fn:"+ini.Name] {
+						skip = true // a new epoch was entered
+					}
+				}
+				// the re-validator is about anti-MEV payloads only
+				if table == "ctx.PreCommitPayloads" {
+					if v, ok := e.F.value(mkAtom("lt", tAMEVHeight, tZero)); ok && v {
+						skip = true
+					}
+					if v, ok := e.F.value(mkAtom("lt", tBlockIndex, tAMEVHeight)); ok && v {
+						skip = true
+					}
+				}
+				if !skip {
+					bad = strings.Join(e.Trail, "; ")
+				}
+			}
+			if bad == "" {
+				r.ok(fmt.Sprintf("%s: every path on which the last transaction arrives re-validates %s", root.Name, table))
+			} else {
+				r.fail(root.Name+"/completion-without-revalidation:"+table, c.Prog.Pos(root.Decl), fmt.Sprintf("on path {%s} the last missing transaction is recorded and %s is not called: entries of %s parked while the transaction was missing stay unverified and are counted (a watch-only validator leaves before the check, yet it processes the pre-block like every node)", bad, fn.Name, table))
+			}
+		}
+	}
 	kinds := []struct{ kind, table, verify, ctor, accept string }{
 		{"CommitType", "ctx.CommitPayloads", "if:Block.Verify", "cb:NewBlockFromContext", "cb:ProcessBlock"},
 		{"PreCommitType", "ctx.PreCommitPayloads", "if:PreBlock.Verify", "cb:NewPreBlockFromContext", "cb:ProcessPreBlock"},
